@@ -19,7 +19,7 @@ import ast
 from ..astutil import call_name, calls, dotted, names_in, param_names, stmts, walk_local
 from ..cfg import CFG
 from ..core import AnalysisError, Mutant
-from ..exprnorm import canon, check_spec, show, summarize
+from ..exprnorm import canon, check_spec, same_expr, show, spec, summarize
 
 EXPLANATION = (
     "Change-mask term extraction, wrapper forwarding shape, call-graph cycle detection over "
@@ -64,6 +64,24 @@ def or_terms(e):
     if isinstance(e, ast.BinOp) and isinstance(e.op, ast.BitOr):
         return or_terms(e.left) + or_terms(e.right)
     return [e]
+
+
+def consecutive_segments(f, pattern, yields):
+    """one loop `for I in range(len(starts) - 1)` without break/continue/early return whose body takes PATTERN(I)"""
+    loops = [st for st in ast.walk(f) if isinstance(st, ast.For)]
+    for lp in loops:
+        if not (isinstance(lp.target, ast.Name) and same_expr(lp.iter, "range(len(starts) - 1)")):
+            continue
+        if lp.orelse or any(isinstance(x, (ast.Break, ast.Continue, ast.Return)) for x in ast.walk(lp)):
+            continue
+        want = pattern.replace("{i}", lp.target.id)
+        hits = [x for x in ast.walk(lp) if isinstance(x, ast.Subscript) and same_expr(x, want)]
+        if not hits:
+            continue
+        if yields and not any(isinstance(x, ast.Yield) and x.value is not None and any(h is y for h in hits for y in ast.walk(x.value)) for x in ast.walk(lp)):
+            continue
+        return True
+    return False
 
 
 def mode_ignored_somewhere(f, p):
@@ -208,18 +226,21 @@ def run(ctx):
                      and isinstance(n.right, ast.Constant) and n.right.value == 1 for n in walk_local(f)) if ss else False
         ctx.ob("R5.segment-lookup", SEG, name, "np.searchsorted(starts, indices, side='right') - 1", ok and minus1,
                "the segment of an atom is the last start <= index", f.lineno)
-        t = ast.unparse(f)
-        ctx.ob("R5.range-checked", SEG, name, "(indices < 0).any() / (indices >= length).any() raise",
-               "(indices < 0).any()" in t and "(indices >= length).any()" in t and "length = starts[-1]" in t,
-               "indices must be range-checked on both sides against the exclusive stop", f.lineno)
+        # both range tests are guards (they raise) and both precede the lookup; `length` is the exclusive stop
+        sm_ = summarize(f)
+        gtxt = [canon(g_) for g_ in sm_.guards]
+        lo = spec("np.any(np.asarray(indices) < 0)") in gtxt or spec("(np.asarray(indices) < 0).any()") in gtxt
+        hi = spec("(np.asarray(indices) >= starts[-1]).any()") in gtxt
+        ctx.ob("R5.range-checked", SEG, name, "(indices < 0).any() / (indices >= length).any() raise", lo and hi,
+               "indices must be refused (an exception) on both sides: negative, and at or beyond the exclusive stop starts[-1]; "
+               f"the function's refusing conditions are {[ast.unparse(g_)[:60] for g_ in sm_.guards]}", f.lineno)
     si = seg.func("segment_iter")
     ctx.ob("R5.iteration", SEG, "segment_iter", "array[..., starts[i]:starts[i + 1]] for i in range(len(starts) - 1)",
-           "array[..., starts[i]:starts[i + 1]]" in ast.unparse(si) and "range(len(starts) - 1)" in ast.unparse(si),
-           "iteration must cover consecutive start pairs", si.lineno)
+           consecutive_segments(si, "array[..., starts[{i}]:starts[{i} + 1]]", yields=True),
+           "iteration must yield exactly the consecutive start pairs, in order, with nothing skipped", si.lineno)
     sp = seg.func("spread_segment_wise")
-    ctx.ob("R5.spread", SEG, "spread_segment_wise", "np.repeat(input_data, starts[1:] - starts[:-1], axis=0)",
-           "starts[1:] - starts[:-1]" in ast.unparse(sp) and "np.repeat(input_data, seg_lens, axis=0)" in ast.unparse(sp),
-           "values are repeated by the segment lengths", sp.lineno)
+    check_spec(ctx, "R5.spread", SEG, "spread_segment_wise", "np.repeat(input_data, starts[1:] - starts[:-1], axis=0)",
+               "values are repeated by the segment lengths starts[k+1] - starts[k]")
     ap = seg.func("apply_segment_wise")
     allocs = [c for c in calls(ap) if call_name(c) == "np.zeros"]
     ctx.need(len(allocs) == 2, "result allocations of apply_segment_wise")
@@ -231,8 +252,9 @@ def run(ctx):
                "the input data (a count of a boolean mask would collapse to True/False, a mean of integers "
                "would be truncated)", c.lineno)
     ctx.ob("R5.apply", SEG, "apply_segment_wise", "data[starts[i]:starts[i + 1]]",
-           "data[starts[i]:starts[i + 1]]" in ast.unparse(ap) and "range(len(starts) - 1)" in ast.unparse(ap),
-           "the function is applied to consecutive segments", ap.lineno)
+           consecutive_segments(ap, "data[starts[{i}]:starts[{i} + 1]]", yields=False)
+           and any(isinstance(st, ast.Assign) and same_expr(st.targets[0], "processed_data[i]") for st in ast.walk(ap)),
+           "the function is applied to every consecutive segment and result k is stored at position k", ap.lineno)
 
     # ---------------- R3 recursion -------------------------------------------
     b = ctx.src(BONDS)
@@ -271,8 +293,10 @@ def run(ctx):
     # every atom is visited: loop until visited_mask.all(), root = first unvisited
     gm = mol.func("get_molecule_indices")
     t = ast.unparse(gm)
+    wl = [st for st in ast.walk(gm) if isinstance(st, ast.While)]
     ctx.ob("R3.component-loop", MOL, "get_molecule_indices", "while not visited_mask.all(): root = np.argmin(visited_mask)",
-           "while not visited_mask.all()" in t and "np.argmin(visited_mask)" in t and "visited_mask[connected] = True" in t,
+           "while not visited_mask.all()" in t and "np.argmin(visited_mask)" in t and "visited_mask[connected] = True" in t
+           and len(wl) == 1 and not wl[0].orelse and not any(isinstance(x, (ast.Break, ast.Return)) for x in ast.walk(wl[0])),
            "components are collected until every atom is visited", gm.lineno, nontrivial=False)
 
     # the components are those of the *whole* bond graph: the bond list searched is the caller's, unfiltered
@@ -305,6 +329,9 @@ def run(ctx):
 
 
 MUTANTS = [
+    Mutant("spread-lengths-minus-one", SEG, "    seg_lens = starts[1:] - starts[:-1]\n", "    seg_lens = starts[1:] - starts[:-1] - 1\n", "R5.spread"),
+    Mutant("range-check-only-prints", SEG, "    if (indices < 0).any():\n        raise ValueError(\"This function does not support negative indices\")\n    if (indices >= length).any():\n        index = np.min(np.where(indices >= length)[0])\n        raise ValueError(\n            f\"Index {index} is out of range for an atom array with length {length}\"\n        )\n\n    return np.searchsorted", "    if (indices < 0).any():\n        print(\"This function does not support negative indices\")\n    if (indices >= length).any():\n        index = np.min(np.where(indices >= length)[0])\n        raise ValueError(\n            f\"Index {index} is out of range for an atom array with length {length}\"\n        )\n\n    return np.searchsorted", "R5.range-checked"),
+    Mutant("component-loop-breaks", MOL, "        visited_mask[connected] = True\n        molecule_indices.append(connected)\n", "        visited_mask[connected] = True\n        molecule_indices.append(connected)\n        break\n", "R3.component-loop"),
     Mutant("molecules-ignore-coordination", MOL, "    molecule_indices = []\n    visited_mask = np.zeros(bonds.get_atom_count(), dtype=bool)", "    bonds = BondList(bonds.get_atom_count(), bonds.as_array()[bonds.as_array()[:, 2] != 7])\n    molecule_indices = []\n    visited_mask = np.zeros(bonds.get_atom_count(), dtype=bool)", "R3.whole-bond-graph"),
     Mutant("drop-ins-code", RES, "chain_id_changes | res_id_changes | ins_code_changes | res_name_changes", "chain_id_changes | res_id_changes | res_name_changes", "R1.residue-starts-definition"),
     Mutant("chain-increment", CHA, "res_id_decrement = diff < 0", "res_id_decrement = diff > 0", "R1.chain-starts-definition"),
